@@ -151,6 +151,8 @@ class Classifier:
         return e
 
     def _resolved_text(self, e, depth=0):
+        if isinstance(e, ast.Name) and len(self.env.get(e.id, [])) > 1:
+            return e.id
         if isinstance(e, ast.Name) and depth < 4:
             v = self._one(self.env, e.id)
             if v is not None and isinstance(v, (ast.Name, ast.Attribute)):
@@ -162,6 +164,8 @@ class Classifier:
         if depth > 5:
             return "point:?"
         if isinstance(e, ast.Name):
+            if len(self.env.get(e.id, [])) > 1:
+                return "point:" + e.id  # chosen among several candidates: the local itself names the point
             v = self._one(self.env, e.id)
             if v is not None:
                 return self.anchor_of(v, depth + 1)
@@ -247,6 +251,12 @@ class Classifier:
             if qb.kind == "UNDER" and qs.kind == "DIST":
                 return ("OVERLAP", f"distance < under-approximate radii {qb}")
             if qb.kind == "UNDER" and qs.kind == "OVER" and qb.owners == {"self"} and qs.owners == {"other"}:
+                if qb.anchor and qs.anchor and qb.anchor != qs.anchor:
+                    return (
+                        "NOTHING",
+                        f"`{unparse(e)}`: the distance to self's surface is measured from {sorted(qb.anchor)} but the other operand's radius from {sorted(qs.anchor)}: "
+                        f"a ball around one point says nothing about a ball around another",
+                    )
                 return ("CONTAINS", "under-approximation of self > over-approximation of the other operand")
             if qb.kind == "OVER" and qs.kind == "OVER" and qb.owners == {"other"} and qs.owners == {"self"}:
                 if not qb.attained:
